@@ -3,10 +3,12 @@
 package req
 
 import (
+	"errors"
 	"net"
 	"net/http"
 	"net/netip"
 	"net/url"
+	"strconv"
 	"strings"
 	"testing"
 
@@ -344,19 +346,57 @@ func TestVerif_C11_policy(t *testing.T) {
 			}
 			hvia = append(hvia, q)
 		}
-		real := make([]RedirectPolicy, len(ps))
 		nontriv := false
-		for j, p := range ps {
-			real[j] = p.real()
+		// Either configure the shared client directly, or reach the policy through a family of
+		// clients grown by Clone / SetRedirectPolicy calls: whatever the history, the client
+		// evaluated must enforce what the Go-side bookkeeping (and the lifetime model) says.
+		cl, line0, scen := c, "", ""
+		if r.Intn(3) == 0 {
+			fam := c11NewFamily(C(), c11DefaultPols)
+			fam.grow(r, func() []c11Pol {
+				if r.Intn(2) == 0 {
+					return ps
+				}
+				return c11GenPols(r, []c11Auth{a, b}, viaLen, hdrPool)
+			})
+			var j int
+			j, scen = fam.pick(r)
+			cl, ps = fam.clients[j], fam.want[j]
+			line0 = "c11clone " + fam.encOps() + " " + strconv.Itoa(j)
+			s.Count(scen)
+			if fam.emptied {
+				s.Count("family:empty-set-call")
+			}
+			scen = fam.show(j) + " ; "
+		} else {
+			real := make([]RedirectPolicy, len(ps))
+			for j, p := range ps {
+				real[j] = p.real()
+			}
+			c.SetRedirectPolicy(real...)
+			line0 = "c11policy " + c11EncPols(ps)
+			s.Count("direct")
+		}
+		for _, p := range ps {
 			s.Count("pol:" + p.kind)
 			if p.kind != "nil" && p.kind != "no" && p.kind != "max" {
 				nontriv = true
 			}
 		}
-		c.SetRedirectPolicy(real...)
 		var err error
-		if p, bad := verifh.Safely(func() { err = c.httpClient.CheckRedirect(hreq, hvia) }); bad {
-			s.Crash("policy", c11ShowPols(ps)+" req="+req, p, "")
+		check := cl.httpClient.CheckRedirect
+		if check == nil {
+			// no closure installed: net/http falls back to its default (10 requests, any host)
+			s.Count("checkredirect-nil")
+			check = func(_ *http.Request, via []*http.Request) error {
+				if len(via) >= 10 {
+					return errors.New("stopped after 10 redirects")
+				}
+				return nil
+			}
+		}
+		if p, bad := verifh.Safely(func() { err = check(hreq, hvia) }); bad {
+			s.Crash("policy", scen+c11ShowPols(ps)+" req="+req, p, "")
 			continue
 		}
 		dec := 0
@@ -375,11 +415,11 @@ func TestVerif_C11_policy(t *testing.T) {
 		}
 		s.Count("decision:" + c11DecisionName[dec])
 		probes := append([]string{"x-custom"}, hdrPool...)
-		line := "c11policy " + c11EncPols(ps) + " " + verifh.Hex(req) + " " + verifh.HexList(via) + " " +
+		line := line0 + " " + verifh.Hex(req) + " " + verifh.HexList(via) + " " +
 			c11EncHeaders(rh) + " " + c11EncHeaders(vh) + " " + verifh.HexList(probes)
 		ans := c11DecisionName[dec] + " " + c11ShowProbes(func(k string) []string { return hreq.Header.Values(k) }, probes)
 		s.Case(line, ans, dec == want, class, nontriv,
-			c11ShowPols(ps)+" req="+req+" via="+strings.Join(via, ",")+" -> "+c11DecisionName[dec])
+			scen+c11ShowPols(ps)+" req="+req+" via="+strings.Join(via, ",")+" -> "+c11DecisionName[dec])
 	}
-	s.FinishRequire("pol:nil", "pol:no", "pol:max", "pol:samehost", "pol:samedomain", "pol:ahost", "pol:adomain", "pol:copy", "decision:allow", "decision:deny", "decision:uselast")
+	s.FinishRequire("direct", "family:original", "family:set-on-clone", "family:clone-of-clone-inherits", "family:clone-inherits,parent-reconfigured-later", "family:clone-inherits", "family:empty-set-call", "pol:nil", "pol:no", "pol:max", "pol:samehost", "pol:samedomain", "pol:ahost", "pol:adomain", "pol:copy", "decision:allow", "decision:deny", "decision:uselast")
 }
